@@ -270,21 +270,7 @@ impl Property for C04 {
             // the spots the property names: OpSpecConstantOp naming any opcode, OpConstant with undeclared type,
             // strings right before a too-large word count
             if rng.chance(1, 3) {
-                let any = s.insts[rng.usize_below(s.insts.len())].opcode as u32;
-                let mut ops = vec![MOp::W(s.k_specop, any)];
-                for _ in 0..rng.below(4) {
-                    ops.push(MOp::W(s.k_idref, rng.below(20) as u32));
-                }
-                let at = rng.usize_below(stream.insts.len() + 1);
-                stream.insts.insert(
-                    at,
-                    MInst {
-                        opcode: s.op("SpecConstantOp"),
-                        rtype: Some(rng.range(1, 20) as u32),
-                        rid: Some(rng.range(100, 200) as u32),
-                        ops,
-                    },
-                );
+                crate::producer::plant_spec_constant_op(rng, &mut stream);
             }
             if rng.chance(1, 4) {
                 let at = rng.usize_below(stream.insts.len() + 1);
